@@ -37,7 +37,8 @@ FLOORS = {'par_runs': 90, 'forced_permutations_observed': 60,
           'blocks_checked': 250, 'tokens_checked': 800,
           'overlapping_runs': 50, 'alive_samples': 250,
           'arrival_barriers_passed': 60, 'yield_lines': 2000,
-          'transient_read_errors': 15, 'tests_with_several_events': 25}
+          'transient_read_errors': 15, 'tests_with_several_events': 25,
+          'runs_with_an_unimportable_module': 10}
 BATCH_TIMEOUT = 900
 
 
@@ -330,6 +331,16 @@ def run_case(case):
             tests.append(t)
         tbl[name] = tests
     spec = gen.simple_world(prefix, layers, tbl)
+    broken_module = rng.random() < 0.15
+    if broken_module:
+        # a test module nobody can import: the parent has counted it, every
+        # layer subprocess meets it again
+        spec['modules'].append({
+            'name': '%s_p.tests.test_zbroken' % prefix,
+            'file': '%s_p/tests/test_zbroken.py' % prefix,
+            'fault': {'what': 'raise', 'exc': rng.choice(
+                ['ImportError', 'SyntaxError', 'ValueError'])},
+            'suite': {'t': 'suite', 'ch': []}})
     lm = spec['layers_module']
     full = {i: '%s.L%d' % (lm, i) for i in range(k)}
     tests_with_several_events = multi_event[0]
@@ -456,6 +467,8 @@ def run_case(case):
                     % (e0,), 'counters': counters}
         # (a) equivalence
         C('tests_with_several_events', tests_with_several_events)
+        if broken_module:
+            C('runs_with_an_unimportable_module')
         par_ran = common.ran_counts(ev, 'test.setUp')
         if par_ran != seq_ran:
             V('executed-multiset-differs-from-sequential', 'par-executed',
